@@ -12,5 +12,5 @@ Extraction "model.ml"
   filter_paeth_decode_x86_64 filter_paeth_decode_other filter_paeth_encode paeth_spec
   ftype_to_Z ftype_of_Z row_filter_from_u8
   rows_model pass_dims expand_pass_exec pass_of
-  encode_image emitted conformant Reader.run Reader.reader_init Reader.total transform_row output_line_size output_color_type spec_convert spec_output_type decode_frame l0_run l0_run_after_reset anc_get inflate_checked inflate_all utf8_valid crc32 adler32 zlib_inflate decode_latin1 encode_latin1 text_decompress_run
+  encode_image emitted conformant Reader.run Reader.reader_init Reader.total transform_row output_line_size output_color_type spec_convert spec_output_type decode_frame l0_run l0_budget l0_run_after_reset anc_get inflate_checked inflate_all utf8_valid crc32 adler32 zlib_inflate decode_latin1 encode_latin1 text_decompress_run
   enc_text enc_ztxt enc_itxt enc_fctl header_chunks K_mark.
